@@ -84,18 +84,39 @@ theorem valid_property_passes (p : Prefs) : validOk p true = true := by
 
 /-! ### rules -/
 
+/-- `doDecl` returned the empty text -/
+def isEmptyOk : Except Err Cps → Bool
+  | .ok t => t.isEmpty
+  | .error _ => false
+
 /-- a rule that the preference record suppresses as a whole: a comment when comments are dropped, an unknown at-rule
-when unknown at-rules are dropped -/
-def Rule.dropped (p : Prefs) : Rule → Bool
+when unknown at-rules are dropped, a style rule whose declaration block is written as the empty text when empty rules
+are dropped (`lv` is the nesting level at which the rule is serialized) -/
+def Rule.dropped (p : Prefs) (lv : Nat) : Rule → Bool
   | .comment _ => !p.keepComments
   | .unknown (.mk _ _ _) => !p.keepUnknownAtRules
+  | .style _ _ _ st => !p.keepEmptyRules && isEmptyOk (doDecl p (lv + 1) st)
   | _ => false
 
-theorem doRule_dropped (p : Prefs) (lv sl : Nat) (r : Rule) (hd : r.dropped p = true) : doRule p lv sl r = pure [] := by
+theorem doRule_dropped (p : Prefs) (lv sl : Nat) (r : Rule) (hd : r.dropped p lv = true) :
+    doRule p lv sl r = pure [] := by
   cases r <;> simp only [Rule.dropped] at hd <;> try (exact absurd hd (by decide))
   · rename_i t
     have : p.keepComments = false := by simpa using hd
     simp [doRule, doComment, this]
+  · rename_i wf swf sels style
+    simp only [Bool.and_eq_true, Bool.not_eq_true'] at hd
+    obtain ⟨hk, he⟩ := hd
+    simp only [doRule]
+    split
+    · rfl
+    · cases hdd : doDecl p (lv + 1) style with
+      | error e => rw [hdd] at he; simp [isEmptyOk] at he
+      | ok t =>
+        rw [hdd] at he
+        have : t = [] := by simpa [isEmptyOk] using he
+        subst this
+        simp [styleTail, hk]
   · rename_i u
     cases u with
     | mk wf atk items =>
@@ -103,11 +124,11 @@ theorem doRule_dropped (p : Prefs) (lv sl : Nat) (r : Rule) (hd : r.dropped p = 
       simp [doRule, doURule, this]
 
 mutual
-/-- the documented effect of `keepComments` / `keepUnknownAtRules` on the rule tree: the suppressed rules are removed,
-at every nesting depth -/
-def effectRule (p : Prefs) : Rule → Rule
-  | .media a b c d e f rules => .media a b c d e f (effectRules p rules)
-  | .page a b c d e rules => .page a b c d e (effectRules p rules)
+/-- the documented effect of `keepComments` / `keepUnknownAtRules` / `keepEmptyRules` on the rule tree: the suppressed
+rules are removed, at every nesting depth -/
+def effectRule (p : Prefs) (lv : Nat) : Rule → Rule
+  | .media a b c d e f rules => .media a b c d e f (effectRules p lv rules)
+  | .page a b c d e rules => .page a b c d e (effectRules p lv rules)
   | .comment t => .comment t
   | .charset a b => .charset a b
   | .import_ a b c d e => .import_ a b c d e
@@ -117,9 +138,9 @@ def effectRule (p : Prefs) : Rule → Rule
   | .style a b c d => .style a b c d
   | .unknown r => .unknown r
   | .variables a b c d e => .variables a b c d e
-def effectRules (p : Prefs) : List Rule → List Rule
+def effectRules (p : Prefs) (lv : Nat) : List Rule → List Rule
   | [] => []
-  | r :: t => if r.dropped p then effectRules p t else effectRule p r :: effectRules p t
+  | r :: t => if r.dropped p lv then effectRules p lv t else effectRule p lv r :: effectRules p lv t
 end
 
 def nonEmptyTexts (l : List Cps) : List Cps := l.filter fun t => !t.isEmpty
@@ -162,7 +183,7 @@ def SameTexts : Except Err (List Cps) → Except Err (List Cps) → Prop
 mutual
 /-- **T6.3 (rules).** Removing the suppressed rules from the DOM (at every depth) does not change what is written:
 the filters at the point of use ARE that DOM transformation — for every preference record. -/
-theorem doRule_effect (p : Prefs) (lv sl : Nat) : ∀ r : Rule, doRule p lv sl (effectRule p r) = doRule p lv sl r
+theorem doRule_effect (p : Prefs) (lv sl : Nat) : ∀ r : Rule, doRule p lv sl (effectRule p lv r) = doRule p lv sl r
   | .media mwf atk kw media name items rules => by
     simp only [effectRule, doRule]
     split
@@ -173,7 +194,7 @@ theorem doRule_effect (p : Prefs) (lv sl : Nat) : ∀ r : Rule, doRule p lv sl (
         simp only
         have ih := doRules_effect p lv sl rules
         revert ih
-        generalize doRules p lv sl (effectRules p rules) = A
+        generalize doRules p lv sl (effectRules p lv rules) = A
         generalize doRules p lv sl rules = B
         intro ih
         cases A <;> cases B <;> simp only [SameTexts] at ih
@@ -184,7 +205,7 @@ theorem doRule_effect (p : Prefs) (lv sl : Nat) : ∀ r : Rule, doRule p lv sl (
     simp only [effectRule, doRule]
     have ih := doRules_effect p lv sl rules
     revert ih
-    generalize doRules p lv sl (effectRules p rules) = A
+    generalize doRules p lv sl (effectRules p lv rules) = A
     generalize doRules p lv sl rules = B
     intro ih
     cases A <;> cases B <;> simp only [SameTexts] at ih
@@ -203,7 +224,7 @@ theorem doRule_effect (p : Prefs) (lv sl : Nat) : ∀ r : Rule, doRule p lv sl (
   | .unknown _ => rfl
   | .variables _ _ _ _ _ => rfl
 theorem doRules_effect (p : Prefs) (lv sl : Nat) : ∀ rs : List Rule,
-    SameTexts (doRules p lv sl (effectRules p rs)) (doRules p lv sl rs)
+    SameTexts (doRules p lv sl (effectRules p lv rs)) (doRules p lv sl rs)
   | [] => by simp [effectRules, doRules, SameTexts, pure, Except.pure]
   | r :: rest => by
     have ih := doRules_effect p lv sl rest
@@ -212,7 +233,7 @@ theorem doRules_effect (p : Prefs) (lv sl : Nat) : ∀ rs : List Rule,
     · rename_i hd
       simp only [doRules, doRule_dropped p lv sl r hd, pure, Except.pure]
       revert ih
-      generalize doRules p lv sl (effectRules p rest) = A
+      generalize doRules p lv sl (effectRules p lv rest) = A
       generalize doRules p lv sl rest = B
       intro ih
       cases A <;> cases B <;> simp only [SameTexts] at ih ⊢
@@ -224,7 +245,7 @@ theorem doRules_effect (p : Prefs) (lv sl : Nat) : ∀ rs : List Rule,
       | ok t =>
         simp only
         revert ih
-        generalize doRules p lv sl (effectRules p rest) = A
+        generalize doRules p lv sl (effectRules p lv rest) = A
         generalize doRules p lv sl rest = B
         intro ih
         cases A <;> cases B <;> simp only [SameTexts] at ih ⊢
@@ -235,18 +256,18 @@ end
 
 /-- the documented effect of the rule-level content preferences on a sheet -/
 def effectSheet (p : Prefs) (s : Sheet) : Sheet :=
-  { s with rules := effectRules p (s.rules.filter fun r => !nsDropped p s.usedUris r) }
+  { s with rules := effectRules p 0 (s.rules.filter fun r => !nsDropped p s.usedUris r) }
 
-theorem nsDropped_of_effectRule (p : Prefs) (used : List (Option Cps)) (r : Rule) :
-    nsDropped p used (effectRule p r) = nsDropped p used r := by
+theorem nsDropped_of_effectRule (p : Prefs) (lv : Nat) (used : List (Option Cps)) (r : Rule) :
+    nsDropped p used (effectRule p lv r) = nsDropped p used r := by
   cases r <;> simp [effectRule, nsDropped]
 
-theorem filter_ns_effectRules (p : Prefs) (used : List (Option Cps)) : ∀ rs : List Rule,
+theorem filter_ns_effectRules (p : Prefs) (lv : Nat) (used : List (Option Cps)) : ∀ rs : List Rule,
     (∀ r ∈ rs, nsDropped p used r = false) →
-    (effectRules p rs).filter (fun r => !nsDropped p used r) = effectRules p rs
+    (effectRules p lv rs).filter (fun r => !nsDropped p used r) = effectRules p lv rs
   | [], _ => by simp [effectRules]
   | r :: rest, hn => by
-    have ih := filter_ns_effectRules p used rest (fun x hx => hn x (List.mem_cons_of_mem _ hx))
+    have ih := filter_ns_effectRules p lv used rest (fun x hx => hn x (List.mem_cons_of_mem _ hx))
     simp only [effectRules]
     split
     · exact ih
@@ -257,13 +278,13 @@ at-rules, unused namespace rules) removed at every depth serializes to the same 
 theorem doSheet_effect (p : Prefs) (sl : Nat) (s : Sheet) : doSheet p sl (effectSheet p s) = doSheet p sl s := by
   unfold doSheet effectSheet
   simp only
-  rw [filter_ns_effectRules p s.usedUris _ (by
+  rw [filter_ns_effectRules p 0 s.usedUris _ (by
     intro r hr
     have := (List.mem_filter.mp hr).2
     simpa using this)]
   have ih := doRules_effect p 0 sl (s.rules.filter fun r => !nsDropped p s.usedUris r)
   revert ih
-  generalize doRules p 0 sl (effectRules p (s.rules.filter fun r => !nsDropped p s.usedUris r)) = A
+  generalize doRules p 0 sl (effectRules p 0 (s.rules.filter fun r => !nsDropped p s.usedUris r)) = A
   generalize doRules p 0 sl (s.rules.filter fun r => !nsDropped p s.usedUris r) = B
   intro ih
   cases A <;> cases B <;> simp only [SameTexts] at ih
@@ -272,20 +293,21 @@ theorem doSheet_effect (p : Prefs) (sl : Nat) (s : Sheet) : doSheet p sl (effect
     simp only [ih]
 
 
-theorem effectRule_dropped (p : Prefs) (r : Rule) : (effectRule p r).dropped p = r.dropped p := by
+theorem effectRule_dropped (p : Prefs) (lv : Nat) (r : Rule) : (effectRule p lv r).dropped p lv = r.dropped p lv := by
   cases r <;> simp [effectRule, Rule.dropped]
 
 /-- no suppressed rule is left at the top level of the transformed rule list -/
-theorem effectRules_none_dropped (p : Prefs) : ∀ rs : List Rule, ∀ r ∈ effectRules p rs, r.dropped p = false
+theorem effectRules_none_dropped (p : Prefs) (lv : Nat) : ∀ rs : List Rule,
+    ∀ r ∈ effectRules p lv rs, r.dropped p lv = false
   | [], r, hr => by simp [effectRules] at hr
   | x :: rest, r, hr => by
     simp only [effectRules] at hr
     split at hr
-    · exact effectRules_none_dropped p rest r hr
+    · exact effectRules_none_dropped p lv rest r hr
     · rename_i hx
       rcases List.mem_cons.mp hr with rfl | h
       · rw [effectRule_dropped]; simpa using hx
-      · exact effectRules_none_dropped p rest r h
+      · exact effectRules_none_dropped p lv rest r h
 
 /-! ### T6.4c — minified nested `@media` -/
 
